@@ -6,6 +6,7 @@ import (
 	"fmt"
 	"go/types"
 	"math/big"
+	"regexp"
 	"strings"
 
 	"golang.org/x/tools/go/ssa"
@@ -248,8 +249,18 @@ func typeKey(t types.Type) string {
 		pp = strings.TrimPrefix(pp, modPath+"weed/")
 		return pp
 	})
+	// byte/uint8 and rune/int32 are the same types: one heap must serve both spellings
+	if strings.Contains(s, "byte") || strings.Contains(s, "rune") {
+		s = reByte.ReplaceAllString(s, "uint8")
+		s = reRune.ReplaceAllString(s, "int32")
+	}
 	return s
 }
+
+var (
+	reByte = regexp.MustCompile(`\bbyte\b`)
+	reRune = regexp.MustCompile(`\brune\b`)
+)
 
 // valLeaves returns the leaf terms of v in flatten order.
 func (x *Exec) valLeaves(st *State, v *Val, t types.Type) []*Term {
